@@ -271,9 +271,7 @@ def write_foreign(fl, f, emb, path):
                      txt_style=TXT_STYLES[k], title="Oxs_TimeDriver:evolver:Magnetization")
 
 
-def excised(raw, cut, ndata):
-    """the file with the last k values of the binary data block (inside: and half of one more) removed, footer kept"""
-    _, k, inside = cut
+def _data_block(raw, ndata):
     m = re.search(rb"^#\s*begin\s*:\s*data[^\n]*\n", raw, re.I | re.M)
     mode = m.group(0).decode().lower().split()
     if "binary" not in mode:
@@ -282,8 +280,32 @@ def excised(raw, cut, ndata):
     data_end = m.end() + nb + nb * ndata
     if raw[data_end:data_end + 1] != b"\n":
         raise core._tlc.MachineryError("binary data block does not end where the header says")
-    gone = k * nb + (nb // 2 if inside else 0)
-    return (data_end - gone, raw[:data_end - gone] + raw[data_end:])
+    return nb, data_end
+
+
+def _fill(raw, data_end):
+    """number of white-space bytes that follow the data block.  A hole of at most that many bytes is filled by them and the
+    file reads `<complete block># End: Data`: a complete file in the layout without white space after the block (mumax3
+    writes none), whose last value happens to end in these bytes -- not a damaged file, so not asked."""
+    tail = raw[data_end:data_end + 16]
+    return len(tail) - len(tail.lstrip())
+
+
+def excised(raw, cut, ndata):
+    """the files of the class `excise k inside`: the last k values of the binary data block (inside: and 1 .. nb-1 bytes of
+    one more -- every such byte count) removed, footer kept.  A list of (offset, bytes)."""
+    _, k, inside = cut
+    nb, data_end = _data_block(raw, ndata)
+    gones = [g for g in ([k * nb + j for j in range(1, nb)] if inside else [k * nb]) if g > _fill(raw, data_end)]
+    if not gones or gones[-1] >= nb * ndata + (0 if inside else 1) or gones[0] < 1:
+        raise core._tlc.MachineryError(f"excise class {cut} does not fit a block of {ndata} values")
+    return [(data_end - g, raw[:data_end - g] + raw[data_end:]) for g in gones]
+
+
+def excise_class(raw, gone, ndata):
+    """the class of a hole of `gone` bytes at the end of the data block, and the damaged file"""
+    nb, data_end = _data_block(raw, ndata)
+    return ["excise", gone // nb, gone % nb != 0], data_end - gone, raw[:data_end - gone] + raw[data_end:]
 
 
 def byte_offsets(raw, cut, ndata):
@@ -503,7 +525,7 @@ def exec_state(df, st, emb, part, scratch, tag):
         fault = "check-bit"
     else:
         if fl["cut"][0] == "excise":
-            variants.append(excised(raw, fl["cut"], len(fl["data"])))
+            variants.extend(excised(raw, fl["cut"], len(fl["data"])))
         else:
             for off in byte_offsets(raw, fl["cut"], len(fl["data"])):
                 variants.append((off, raw[:off]))
@@ -638,13 +660,18 @@ def gen_trace(df, rnd, tid, embs, scratch):
                 sec = rnd.choice(secs)
                 inside = rnd.random() < 0.5
                 if sec == "excise" and ndata >= 2:
-                    # values missing at the end of the data block, footer kept (not a truncation)
-                    cut = ["excise", rnd.randrange(1, min(3, ndata - 1) + 1), inside]
-                    off, data = excised(raw, tuple(cut), ndata)
+                    # bytes missing at the end of the data block, footer kept (not a truncation); half of the holes are
+                    # about as long as what follows the block, where a reader that counts bytes is back in step at the end
+                    nb, data_end = _data_block(raw, ndata)
+                    tail = len(raw) - data_end
+                    most = nb * ndata - 1
+                    gone = rnd.choice([tail - 2, tail - 1, tail, tail + 1]) if rnd.random() < 0.5 else rnd.randrange(1, min(most, 4 * tail) + 1)
+                    gone = max(1 + _fill(raw, data_end), min(gone, most))
+                    cut, off, data = excise_class(raw, gone, ndata)
                     with open(dpath, "wb") as fh:
                         fh.write(data)
                     okd, _ = try_read(df, dpath)
-                    ev.append({"k": "truncate", "cut": cut, "off": off, "out": "ok" if okd else "rej"})
+                    ev.append({"k": "truncate", "cut": cut, "off": off, "gone": gone, "out": "ok" if okd else "rej"})
                     continue
                 if sec == "excise":
                     sec = "data"
